@@ -749,7 +749,7 @@ func (vfs *MemFS) RemoveAll(path string) error {
 	parent.mu.Lock()
 	defer parent.mu.Unlock()
 
-	if c, ok := child.(*dirNode); ok && len(c.children) != 0 {
+	if c, ok := child.(*dirNode); ok && c.hasChildren() {
 		err = vfs.removeAll(c)
 		if err != nil {
 			return &fs.PathError{Op: op, Path: path, Err: err}
@@ -761,7 +761,10 @@ func (vfs *MemFS) RemoveAll(path string) error {
 	}
 
 	parent.removeChild(pi.Part())
+
+	child.Lock()
 	child.delete()
+	child.Unlock()
 
 	return nil
 }
@@ -782,7 +785,9 @@ func (vfs *MemFS) removeAll(parent *dirNode) error {
 			}
 		}
 
+		child.Lock()
 		child.delete()
+		child.Unlock()
 	}
 
 	return nil
@@ -853,10 +858,14 @@ func (vfs *MemFS) Rename(oldpath, newpath string) error {
 
 		switch nc := nChild.(type) {
 		case *fileNode:
+			nc.mu.Lock()
 			nc.delete()
+			nc.mu.Unlock()
 		case *symlinkNode:
 			// a file replaces a symbolic link like any other non-directory.
+			nc.mu.Lock()
 			nc.delete()
+			nc.mu.Unlock()
 		default:
 			err := error(avfs.ErrFileExists)
 			if vfs.OSType() == avfs.OsWindows {
